@@ -1642,6 +1642,16 @@ class Path:
             # Enum(value) lookup
             if len(args) == 1:
                 vals = self.ex.enum_values(ci)
+                if self.index.is_flag_enum(ci) and isinstance(args[0], int) and not isinstance(args[0], bool):
+                    # Flag(int) (boundary STRICT): any combination of defined bits is a (pseudo-)member
+                    mask = 0
+                    for v in vals:
+                        mask |= v
+                    if args[0] < 0:
+                        raise Unsupported('Flag(negative int)')
+                    if args[0] & ~mask:
+                        raise SymRaise(mk_exc('ValueError'))
+                    return FlagV(ci, args[0])
                 for i, v in enumerate(vals):
                     r = self.equal(v, args[0])
                     if self.branch(r, f'enum-lookup=={i}'):
